@@ -790,6 +790,16 @@ fn abort_error(tcb: &Tcb) -> Option<Error> {
 
 fn abort_with(k: &mut Kernel, fd: Fd, reason: AbortReason) {
     let st = k.lookup_mut(fd).unwrap();
+    // A child that is still `SynReceived` was never queued for
+    // `accept`, so no application handle will ever close it and
+    // `reap_closed` (which waits for `fd_closed`) would keep it, its
+    // binding and its 4-tuple entry forever. Nobody owns it: drop it
+    // from the table once it is aborted.
+    let unowned_child = st
+        .tcb
+        .as_ref()
+        .map(|t| t.state == TcpState::SynReceived)
+        .unwrap_or(false);
     if let Some(tcb) = st.tcb.as_mut() {
         tcb.state = TcpState::Closed;
         match reason {
@@ -804,6 +814,9 @@ fn abort_with(k: &mut Kernel, fd: Fd, reason: AbortReason) {
     }
     st.wake_read();
     st.wake_write();
+    if unowned_child {
+        k.sockets.remove(fd);
+    }
 }
 
 /// Find a listening socket bound to `local` (or the matching wildcard).
